@@ -451,6 +451,7 @@ class DimensionInfo(NamedTuple):
             self.name == other.name
             and self.kind == other.kind
             and self.num_bits == other.num_bits
+            and self.num_elements == other.num_elements
             and self.is_standard == other.is_standard
             and self.description == other.description
             and np.all(self.offsets == other.offsets)
